@@ -269,6 +269,25 @@ def run(ctx) -> None:
                         judge_collected(ctx, f"pandas:far-dates-{unit}", tb, ctxs, res, wb)
                         ctx.count("c06.far_date_collections")
                         ctx.case(f"far-dates|{unit}|n{n}|k{len(combo)}")
+            # (b2) a time column stored in whole seconds with window bounds between two seconds: the row on the earlier
+            #      second belongs to the window that ends there, in both forms and whatever the arrival order
+            for fe, opts in (("pandas", {}), ("numpy-dict", {}), ("pandas", {"index": "shifted"})):
+                for n in (4, 7):
+                    tb = P.Table(n, streams=("v1",), secs=[P.T0 + k for k in range(n)], time_unit="s", with_pos=False)
+                    for cut in (1, n // 2):
+                        for order in ((0, 1), (1, 0)):
+                            base = [{"window": (None, tb.secs[cut] + 0.5), "streams": {"v1": [("qartod", "vf_probe_test", {"tag": 1})]}},
+                                    {"window": (tb.secs[cut] + 0.5, None), "streams": {"v1": [("qartod", "vf_probe_test", {"tag": 2})]}}]
+                            ctxs = [base[k] for k in order]
+                            res, err = P.run_frontend(fe, tb, P.build_config(ctxs), scratch, opts)
+                            wb = {"kind": "collect", "frontend": fe, "opts": opts, "table": tb.describe(), "contexts": core.jsonable(ctxs),
+                                  "arrival": f"config order {list(order)}", "note": "time column datetime64[s], bounds on a half second"}
+                            if err is not None:
+                                ctx.violation(f"C06:{fe}:half-second-bounds:run-raised:{type(err).__name__}@{P.client_where(err)}", {**wb, "error": repr(err)[:300]})
+                                continue
+                            judge_collected(ctx, f"{fe}:half-second-bounds", tb, ctxs, res, wb)
+                            ctx.count("c06.half_second_bound_collections")
+                            ctx.case(f"half-second-bounds|{fe}|{sorted(opts)}|n{n}|cut{cut}|{order}")
             # (c) integer observations beyond 2**53 (counts, raw ADC words, epoch nanoseconds): the collected data still
             #     equal the source on covered rows, whatever part of the record each window covers
             for fe in ("pandas", "numpy-dict", "xarray-ds"):
